@@ -127,10 +127,9 @@ LineDem(it, b, bad) ==
      ELSE IF IsPen(it[b]) /\ p > 0 - Inf THEN base * base - 100 * p * p
      ELSE base * base
 
-\* everything about the candidate line a -> b (a = 0: start of the paragraph)
-LineRec(it, l, a, b) ==
-  LET L == NatW(it, a, b)  Y == NatY(it, a, b)  Z == NatZ(it, a, b)
-      def == RatioDef(l, L, Y, Z)
+\* everything about the candidate line that ends at b and has natural sums L, Y, Z (L includes b's penalty width)
+LineRecS(it, l, b, L, Y, Z) ==
+  LET def == RatioDef(l, L, Y, Z)
       n == RatioN(l, L, Y, Z)  d == RatioD(l, L, Y, Z)
       cls == LineCls(l, L, Y, Z)
       dem == cls # "I" /\ def /\ d > 0 /\ Abs(n) <= 100      \* demerits are only needed (and bounded) for lines that may be feasible
@@ -140,6 +139,8 @@ LineRec(it, l, a, b) ==
       dlo |-> IF dem THEN LineDem(it, b, BadLo(n, d)) ELSE 0,
       dhi |-> IF dem THEN LineDem(it, b, BadHi(n, d)) ELSE 0,
       flag |-> it[b][6] = 1]
+\* the candidate line a -> b (a = 0: start of the paragraph)
+LineRec(it, l, a, b) == LineRecS(it, l, b, NatW(it, a, b), NatY(it, a, b), NatZ(it, a, b))
 Pairs(it) == {p \in (Legal(it) \cup {0}) \X Legal(it) : p[1] < p[2]}
 LineTable(it, l) == [p \in Pairs(it) |-> LineRec(it, l, p[1], p[2])]
 
@@ -147,10 +148,10 @@ LineTable(it, l) == [p \in Pairs(it) |-> LineRec(it, l, p[1], p[2])]
 Worst(S) == IF "I" \in S THEN "I" ELSE IF "B" \in S THEN "B" ELSE "F"
 FitLo(F1, F2) == IF \E c1 \in F1, c2 \in F2 : Abs(c1 - c2) <= 1 THEN 0 ELSE 100 * DFit
 FitHi(F1, F2) == IF \E c1 \in F1, c2 \in F2 : Abs(c1 - c2) > 1 THEN 100 * DFit ELSE 0
-\* T: line table, s: the breaking as an increasing sequence of positions
-Judge(T, s) ==
+\* s: the breaking as an increasing sequence of positions, recs[j]: the record of its j-th line
+JudgeRecs(s, recs) ==
   LET k == Len(s)
-      ln(j) == T[<<IF j = 1 THEN 0 ELSE s[j-1], s[j]>>]
+      ln(j) == recs[j]
       cls == Worst({ln(j).cls : j \in 1..k})
       shr == Worst({ln(j).shr : j \in 1..k})
       fitOf(j) == IF j = 0 THEN {1} ELSE ln(j).fit            \* the paragraph starts in class 1
@@ -166,16 +167,49 @@ Judge(T, s) ==
   IN [b |-> [j \in 1..k |-> s[j] - 1], cls |-> cls, shr |-> shr,
       dlo |-> IF cls = "I" THEN 0 ELSE DSum(1, FALSE), dhi |-> IF cls = "I" THEN 0 ELSE DSum(1, TRUE),
       mx |-> MaxSt(1)]
+\* T: line table
+Judge(T, s) == JudgeRecs(s, [j \in 1..Len(s) |-> T[<<IF j = 1 THEN 0 ELSE s[j-1], s[j]>>]])
 AllJudged(it, T) == {Judge(T, SeqOf(B, Len(it))) : B \in Breakings(it)}
 
 MinOf(S) == CHOOSE v \in S : \A w \in S : v <= w
+
+\* All breakings without a surely infeasible line, enumerated as paths (still every one of them, no cost pruning):
+\* from break a the next break is any legal b up to the next forced break whose line a -> b is not class "I".
+NextForced(it, a) == MinOf({f \in Forced(it) : f > a})
+RECURSIVE FeasFrom(_, _, _)
+FeasFrom(it, T, a) ==
+  IF a = Len(it) THEN {<<>>}
+  ELSE LET nf == NextForced(it, a)
+           cand == {b \in Legal(it) : a < b /\ b <= nf /\ T[<<a, b>>].cls # "I"}
+       IN UNION {{<<b>> \o s : s \in FeasFrom(it, T, b)} : b \in cand}
+NotInfJudged(it, T) == {Judge(T, s) : s \in FeasFrom(it, T, 0)}
+SmallEnough(it) == Cardinality(Legal(it) \ Forced(it)) <= 9
+\* The same enumeration without a precomputed table, for long lists: scan forward from After(a) with running sums and
+\* stop at the next forced break or when the line can no longer be shrunk to fit (needs shrink <= width per glue).
+\* A path is a sequence of [b, r] (breakpoint, record of the line that ends there).
+RECURSIVE PathsFrom(_, _, _)
+PathsFrom(it, l, a) ==
+  IF a = Len(it) THEN {<<>>}
+  ELSE LET RECURSIVE S(_, _, _, _)
+           S(j, Ls, Ys, Zs) ==
+             IF j > Len(it) THEN {}
+             ELSE LET x == it[j]
+                      rec == LineRecS(it, l, j, Ls + (IF IsPen(x) THEN x[2] ELSE 0), Ys, Zs)
+                      here == IF LegalAt(it, j) /\ rec.cls # "I"
+                              THEN {<<[b |-> j, r |-> rec]>> \o s : s \in PathsFrom(it, l, j)} ELSE {}
+                  IN IF IsForced(x) \/ Ls - Zs > l THEN here
+                     ELSE here \cup S(j + 1, Ls + (IF x[1] \in {0, 1} THEN x[2] ELSE 0),
+                                       Ys + (IF IsGlue(x) THEN x[3] ELSE 0), Zs + (IF IsGlue(x) THEN x[4] ELSE 0))
+       IN S(After(it, a), 0, 0, 0)
+JudgePath(p) == JudgeRecs([j \in 1..Len(p) |-> p[j].b], [j \in 1..Len(p) |-> p[j].r])
 
 \* ---- scenario features (Appendix B of DESIGN.md): inputs outside the restrictions under which Knuth & Plass prove
 \*      their ALGORITHM correct; the DEFINITIONS above do not need them. Used only to make signatures specific. --------
 \* Restriction 1 (the shortest possible length of a line grows with its end point) fails where it matters: from some
 \* start a, the line to b cannot (surely) be shrunk to fit, yet the line to a later b2 is not surely too long.
 \* Happens only through penalty widths (a hyphen wider than what follows it).
-FeatDeact(T) == \E p \in DOMAIN T, q \in DOMAIN T : p[1] = q[1] /\ p[2] < q[2] /\ T[p].shr # "F" /\ T[q].shr # "I"
+FeatDeact(T) == \E p \in DOMAIN T, q \in DOMAIN T : /\ p[1] = q[1] /\ p[2] < q[2] /\ T[p].shr # "F" /\ T[q].shr # "I"
+                                                      /\ T[q].L - T[q].Z < T[p].L - T[p].Z
 \* Two legal breakpoints a < b with no box between them, followed by glue before the next box: the glue discarded
 \* after a lies beyond b, so running sums give the (empty) line a -> b a negative width / stretch / shrink.
 FeatEmptyGlue(it) == \E a \in Legal(it), b \in Legal(it) : a < b /\ After(it, a) > b
@@ -183,7 +217,9 @@ FeatEmptyGlue(it) == \E a \in Legal(it), b \in Legal(it) : a < b /\ After(it, a)
 Features(it, T) == (IF FeatDeact(T) THEN {"deact"} ELSE {}) \cup (IF FeatEmptyGlue(it) THEN {"emptyglue"} ELSE {})
 \* the verdict fields the replay driver needs
 Verdict(it, l, T) ==
-  LET J == AllJudged(it, T)
+  LET NB == NotInfJudged(it, T)
+      complete == NB = {} /\ SmallEnough(it)            \* then J holds every breaking (all of them class "I")
+      J == IF NB # {} THEN NB ELSE IF complete THEN AllJudged(it, T) ELSE {}
       SF == {j \in J : j.cls = "F"}
       SS == {j \in J : j.shr = "F"}
       fin == {j \in SS : j.mx[2] # 0}
@@ -195,8 +231,24 @@ Verdict(it, l, T) ==
       brk |-> J,
       sf |-> SF # {}, mind |-> IF SF = {} THEN -1 ELSE MinOf({j.dhi : j \in SF}),
       feat |-> Features(it, T),
-      allinf |-> \A j \in J : j.cls = "I",
-      sshr |-> SS # {}, noshr |-> \A j \in J : j.shr = "I", tstar |-> tstar]
+      complete |-> complete,
+      allinf |-> complete,
+      sshr |-> SS # {}, noshr |-> complete /\ \A j \in J : j.shr = "I", tstar |-> tstar]
+
+\* Verdict for long lists (Mode "para"): only the breakings without a surely infeasible line are judged, each with the
+\* data of its own lines (ls); no relaxation clause (complete = FALSE).
+VerdictP(it, l) ==
+  LET P == PathsFrom(it, l, 0)
+      J == {[j |-> JudgePath(p),
+             ls |-> [i \in 1..Len(p) |-> [L |-> p[i].r.L, def |-> p[i].r.def, n |-> p[i].r.n, d |-> p[i].r.d, cls |-> p[i].r.cls]]] : p \in P}
+      SF == {x \in J : x.j.cls = "F"}
+  IN [items |-> it, width |-> l,
+      legal |-> {i - 1 : i \in Legal(it)}, forced |-> {i - 1 : i \in Forced(it)},
+      ln |-> {},
+      brk |-> {[b |-> x.j.b, cls |-> x.j.cls, shr |-> x.j.shr, dlo |-> x.j.dlo, dhi |-> x.j.dhi, mx |-> x.j.mx, ls |-> x.ls] : x \in J},
+      sf |-> SF # {}, mind |-> IF SF = {} THEN -1 ELSE MinOf({x.j.dhi : x \in SF}),
+      feat |-> (IF FeatEmptyGlue(it) THEN {"emptyglue"} ELSE {}),
+      complete |-> FALSE, allinf |-> FALSE, sshr |-> FALSE, noshr |-> FALSE, tstar |-> <<1, 0>>]
 
 \* ---- quantised observations (trace validation, Layout): logged lengths are within h/2 of the real ones -----------
 RQ == 1000      \* reported ratios are logged times RQ
@@ -237,16 +289,25 @@ Structural(it) ==
   /\ \A i \in 1..Len(it) : (IsGlue(it[i]) /\ it[i][3] < 0) =>
         /\ i >= 3 /\ IsPen(it[i-1]) /\ ~IsForced(it[i-1]) /\ IsGlue(it[i-2]) /\ it[i-2][3] + it[i][3] >= 0
 Free == [1..NFree -> Alphabet]
-Lists == IF Mode = "exh" THEN Free ELSE IF Mode = "rand" THEN RandomSubset(NRand, Free) ELSE {}
+\* "para": paragraph-shaped lists (NFree words, some hyphenatable, separated by stretchable and shrinkable glue): many
+\* breakings of nearly equal badness, where the flagged / fitness terms and the pruning by fitness class decide
+ParaWords == {<<Box(4)>>, <<Box(5)>>, <<Box(7)>>, <<Box(3), Pen(0,50,1), Box(4)>>, <<Box(4), Pen(1,50,1), Box(5)>>}
+ParaGlues == {<<Glue(3,2,1)>>, <<Glue(3,3,1)>>, <<Glue(4,3,2)>>, <<Glue(3,1,1)>>, <<Glue(5,4,2)>>}
+ParaUnits == {w \o g : w \in ParaWords, g \in ParaGlues}
+RECURSIVE FlatSeq(_)
+FlatSeq(ss) == IF ss = <<>> THEN <<>> ELSE Head(ss) \o FlatSeq(Tail(ss))
+ParaLists == {FlatSeq(f) : f \in RandomSubset(NRand, [1..NFree -> ParaUnits])}
+Lists == IF Mode = "exh" THEN Free ELSE IF Mode = "rand" THEN RandomSubset(NRand, Free)
+         ELSE IF Mode = "para" THEN ParaLists ELSE {}
 
 Init == /\ items \in {f \o TailItems : f \in {g \in Lists : Structural(g)}}
         /\ width \in MinW..MaxW
         /\ ph = 0 /\ lt = <<>>
-Build == ph = 0 /\ ph' = 1 /\ lt' = LineTable(items, width) /\ UNCHANGED <<items, width>>
+Build == ph = 0 /\ ph' = 1 /\ lt' = (IF Mode = "para" THEN <<>> ELSE LineTable(items, width)) /\ UNCHANGED <<items, width>>
 Next == Build
 Spec == Init /\ [][Next]_vars
 
-EmitInv == ph = 1 => PrintT("@@" \o ToJson(Verdict(items, width, lt)))
+EmitInv == ph = 1 => PrintT("@@" \o ToJson(IF Mode = "para" THEN VerdictP(items, width) ELSE Verdict(items, width, lt)))
 
 \* ---- model-level sanity of the specification itself (MC) ------------------------------------------------
 J0 == AllJudged(items, lt)
@@ -272,8 +333,13 @@ OptSane == ph = 1 => LET SF == {j \in J0 : j.cls = "F"} v == Verdict(items, widt
              /\ \A j \in J0 : j.dlo <= j.dhi
              /\ (SF # {} => /\ v.sf /\ \E j \in SF : j.dhi = v.mind /\ j.shr = "F" /\ QLeInf(j.mx, <<Tol, 1>>)
                             /\ v.sshr /\ QLeInf(v.tstar, <<Tol, 1>>))
-             /\ (v.allinf => ~v.sf) /\ (v.noshr => ~v.sshr /\ v.allinf)
+             /\ (v.allinf => ~v.sf /\ \A j \in J0 : j.cls = "I") /\ (v.noshr => ~v.sshr /\ v.allinf)
              /\ (v.tstar[2] # 0 => \E j \in J0 : j.shr = "F" /\ j.mx = v.tstar)
+\* the path enumeration of the not-infeasible breakings is exactly the brute-force filter
+FeasComplete == ph = 1 => {j.b : j \in {i \in J0 : i.cls # "I"}} = {j.b : j \in NotInfJudged(items, lt)}
+\* ... and so is the table-free scan used for long lists
+PathsAgree == ph = 1 => {[b |-> j.b, cls |-> j.cls, dlo |-> j.dlo, dhi |-> j.dhi] : j \in NotInfJudged(items, lt)}
+                        = {[b |-> j.b, cls |-> j.cls, dlo |-> j.dlo, dhi |-> j.dhi] : j \in {JudgePath(p) : p \in PathsFrom(items, width, 0)}}
 \* ratios and classes are invariant under scaling all lengths by 3 (the library's embeddings rely on it)
 Scale(it, s) == [i \in 1..Len(it) |-> <<it[i][1], s * it[i][2], s * it[i][3], s * it[i][4], it[i][5], it[i][6]>>]
 ScaleInv == ph = 1 => LET T3 == LineTable(Scale(items, 3), 3 * width) IN
